@@ -8,7 +8,10 @@ from . import common, store
 
 common.use_repo()
 WORDS = {"t1": ("alpha", "ALPHA"), "t2": ("bravo", "BRAVO"), "t3": ("ünïx", "ÜNÏX"), "t4": ("delta", "DELTA"),
-         "t5": ("q" * 1100, "Q" * 1100)}       # a token longer than a thousand characters: what follows it lies deep inside the value
+         "t5": ("q" * 1100, "Q" * 1100),
+         # case pairs that only the regex engine's case-insensitive matching relates (str.lower() / str.upper() do not map one form
+         # onto the other): a medial sigma against the capital, the long s against the capital S
+         "t6": ("οδοσ", "ΟΔΟΣ"), "t7": ("paradiſe", "PARADISE")}       # a token longer than a thousand characters: what follows it lies deep inside the value
 URLS = {"url1": "https://www.example.com/some/path;p?x=1#frag", "url2": "http://sub.example.org:8080/", "url3": "not a url"}
 TITLES = {"ti1": "(2) alpha zz", "ti2": "● bravo - editor", "ti3": "Game - FPS: 59.2 - alpha", "ti4": "* plain (3)"}
 
@@ -92,7 +95,7 @@ def rand_value(rnd):
     r = rnd.random()
     if r < 0.7:
         n = rnd.choice([1, 1, 2, 3, 1, 1, 2, 0])         # 0: the empty string
-        toks = [{"t": rnd.choice(["t1", "t2", "t3", "t4"]), "c": rnd.choice("lu")} for _ in range(n)]
+        toks = [{"t": rnd.choice(["t1", "t2", "t3", "t4", "t1", "t2", "t6", "t7"]), "c": rnd.choice("lu")} for _ in range(n)]
         if toks and rnd.random() < 0.08:
             toks.insert(0, {"t": "t5", "c": "l"})          # a very long value: the other tokens start beyond character 1100
         return {"k": "str", "toks": toks}
@@ -120,7 +123,7 @@ def rand_events(rnd, n):
 
 
 def rand_rule(rnd):
-    t = rnd.choice(["t1", "t2", "t3", "t4", "t1", ""])
+    t = rnd.choice(["t1", "t2", "t3", "t4", "t1", "", "t6", "t7"])
     sk = rnd.choice([[], [], ["k1"], ["k2"], ["k9", "k1"], ["k3", "k2"]])
     t2 = rnd.choice(["t1", "t2", "t3", "t4"]) if t and rnd.random() < 0.25 else ""
     opt = bool(t) and not t2 and rnd.random() < 0.12
@@ -154,12 +157,23 @@ def run_cases(args):
         except Exception:
             pass
 
+    shared = {}
+
+    def rule_dict(r):
+        """a rule description is written once and used wherever it occurs: equal abstract rules of one case share ONE dict
+        object (as the query interpreter hands the same dict to every call that names it)"""
+        k = json.dumps(r, sort_keys=True)
+        if k not in shared:
+            shared[k] = conc_rule(r)
+        return shared[k]
+
     def one_case(c):
         op = c[0]
+        shared.clear()
         inp = cc.mk(c[1], Event)
         pin = [cc.pev(e) for e in inp]
         if op == "categorize":
-            classes = [(list(cl["cls"]), Rule(conc_rule(cl["rule"]))) for cl in c[2]]
+            classes = [(list(cl["cls"]), Rule(rule_dict(cl["rule"]))) for cl in c[2]]
             warm(categorize, inp, classes)
             out = categorize(inp, classes)
             po = []
@@ -170,7 +184,7 @@ def run_cases(args):
                 po.append(p)
             tr.append({"op": op, "inp": pin, "classes": [{"cls": list(cl["cls"]), "rule": abs_rule(cl["rule"])} for cl in c[2]], "out": po})
         elif op == "tag":
-            classes = [(cl["cls"], Rule(conc_rule(cl["rule"]))) for cl in c[2]]
+            classes = [(cl["cls"], Rule(rule_dict(cl["rule"]))) for cl in c[2]]
             warm(tag, inp, classes)
             out = tag(inp, classes)
             po = []
